@@ -382,7 +382,8 @@ def model(draw, max_steps=3, allow_lmi=True, allow_nonsym_lmi=False, allow_parti
     if allow_extras:
         nextra = draw(st.integers(0, 3))
         for _ in range(nextra):
-            kinds = ["cons_const", "cons_fn", "lmi_t", "unused", "redundant_lmi", "useless_partition", "cons_eq", "nonsym_lmi"]
+            kinds = ["cons_const", "cons_fn", "lmi_t", "unused", "redundant_lmi", "useless_partition", "cons_eq", "nonsym_lmi",
+                     "cons_fn_active"]
             if allow_redeclare:
                 kinds.append("redeclare")
             kind = draw(st.sampled_from(kinds))
@@ -398,6 +399,13 @@ def model(draw, max_steps=3, allow_lmi=True, allow_nonsym_lmi=False, allow_parti
                 tgt = meta.get("comp", main_f) if draw(st.booleans()) else main_f
                 em.emit("cons", ["f", tgt], e, "<=", round(draw(pos) * 50, 2))
                 meta["tags"].append("function_constraint")
+            elif kind == "cons_fn_active":
+                # an ACTIVE function-level constraint with a constant term: the quantity bounded by the initial condition
+                # (<= R with R >= 0.2) is bounded by 0.1 on the function, so this constraint carries the multiplier
+                tgt = meta.get("comp", main_f) if draw(st.booleans()) else main_f
+                em.emit("cons", ["f", tgt], exprs_for_extras[0], "<=", 0.1)
+                meta["tags"].append("function_constraint")
+                meta["tags"].append("active_function_constraint")
             elif kind == "cons_eq":
                 # an equality that pins a fresh leaf expression to a multiple of an existing expression (feasible)
                 t = em.emit("new_expr")["E"][0]
@@ -426,7 +434,17 @@ def model(draw, max_steps=3, allow_lmi=True, allow_nonsym_lmi=False, allow_parti
                 meta["tags"].append("lmi")
             elif kind == "nonsym_lmi" and allow_lmi and allow_nonsym_lmi:
                 # [[a, <p,q>], [<q,p> written differently, b]] : entries (0,1) and (1,0) are different expressions
-                if draw(st.booleans()):
+                variant = draw(st.integers(0, 2))
+                if variant == 2:
+                    # active, with different constants in the mirrored entries: [[src, t], [u + c, 1]], metric t
+                    # (t = u + c at every feasible point, so the multipliers of the two entries meet different constants)
+                    t = em.emit("new_expr")["E"][0]
+                    u = em.emit("new_expr")["E"][0]
+                    uc = em.expr("lin", [[u, 1]], draw(st.sampled_from([1, 0.5, 2, -0.5])))
+                    src = draw(st.sampled_from(exprs_for_extras[1:] or exprs_for_extras))
+                    em.emit("lmi", "pep", [[["e", src], ["e", t]], [["e", uc], ["n", 1]]], False, None)
+                    em.emit("metric", t)
+                elif variant == 1:
                     p, q = draw(st.sampled_from(points_for_extras)), draw(st.sampled_from(points_for_extras))
                     a = em.expr("sq", p)
                     b = em.expr("sq", q)
